@@ -20,8 +20,8 @@ FUNCTIONS = ["strax.plugins.overlap_window_plugin.OverlapWindowPlugin.iter", "Ov
 BOUNDS = {
     "quick": "input chunkings of <=3 chunks with <=3 rows in total, windows (0,0),(1,1),(3,3),(0,3),(3,0),"
              "(1,3); single- and two-output plugins; rows disjoint and sorted, all times symbolic on Z",
-    "thorough": "<=3 chunks, <=3 rows with all six windows; [2,2] and [1,1,1,1] with two windows (more did not finish "
-                "in 3 hours)",
+    "thorough": "<=3 chunks, <=3 rows with all six windows ([1,1,1] with two); 4-row layouts did not finish within "
+                "hours and are outside",
 }
 ASSUMPTIONS = [
     "inputs disjoint and sorted by time (the plugin's documented precondition); positive-length rows",
@@ -253,13 +253,13 @@ def _grid(tier):
         g += [dict(layout=[1, 0, 1], wl=1, wr=3), dict(layout=[0, 1, 1], wl=0, wr=0)]
     else:
         # [2, 2], [2, 1, 1], [1, 2, 1] and [1, 1, 1, 1] with all six windows ran for more than 3 hours on 8 cores
-        # (about 20 CPU-hours) without finishing: they are kept with two windows each
-        for l in ([1], [2], [1, 1], [0, 1], [1, 0], [2, 1], [1, 2], [1, 1, 1], [1, 0, 1]):
+        # (about 20 CPU-hours) without finishing; with two windows each, and [1, 1, 1] with all six, the tier still
+        # had not finished after 40 minutes next to other jobs: the 4-row layouts are outside the thorough bound too
+        for l in ([1], [2], [1, 1], [0, 1], [1, 0], [2, 1], [1, 2], [1, 0, 1], [0, 1, 1]):
             for wl, wr in wins:
                 g.append(dict(layout=l, wl=wl, wr=wr))
-        for l in ([2, 2], [1, 1, 1, 1]):
-            for wl, wr in ((1, 1), (0, 3)):
-                g.append(dict(layout=l, wl=wl, wr=wr))
+        for wl, wr in ((1, 1), (0, 3)):
+            g.append(dict(layout=[1, 1, 1], wl=wl, wr=wr))
     for l in ([1, 1], [2, 1]):
         for tgt in ("ov", "ov_b"):
             g.append(dict(layout=l, wl=1, wr=3, multi=True, target=tgt))
